@@ -633,14 +633,23 @@ def check_scalar(ver, node, ctx):
     return ok
 
 
-def _hashed_blob(node, hashed=False):
+def _hashed_blob(node, hashed=False, in_tuple=False, acc=None):
+    """blobs below a hashed position (set element / map key): set of {"direct", "in-tuple"}"""
+    acc = set() if acc is None else acc
     if node.kids is None:
-        return hashed and node.kind == "blob"
-    if node.kind == "set":
-        return any(_hashed_blob(k, True) for k in node.kids)
-    if node.kind in ("map", "dict"):
-        return any(_hashed_blob(kn, True) or _hashed_blob(vn, hashed) for kn, vn in node.kids)
-    return any(_hashed_blob(k, hashed) for k in node.kids)
+        if hashed and node.kind == "blob":
+            acc.add("in-tuple" if in_tuple else "direct")
+    elif node.kind == "set":
+        for k in node.kids:
+            _hashed_blob(k, True, False, acc)
+    elif node.kind in ("map", "dict"):
+        for kn, vn in node.kids:
+            _hashed_blob(kn, True, False, acc)
+            _hashed_blob(vn, hashed, in_tuple, acc)
+    else:
+        for k in node.kids:
+            _hashed_blob(k, hashed, in_tuple or (hashed and node.kind == "tuple"), acc)
+    return acc
 
 
 def _max_mixed(node):
@@ -683,12 +692,13 @@ def interpret(case, ctx):
         if width >= 2:
             nt = True
             ctx.label("container:mixed-kinds")
-        hazard = _hashed_blob(root)
+        hz = _hashed_blob(root)
+        hazard = "blob-in-tuple-in-hashed-position" if "in-tuple" in hz else ("blob-in-hashed-position" if hz else None)
         if hazard:
-            ctx.label("container:blob-in-hashed-position")
+            ctx.label("container:" + hazard)
         ctx.label("container:judged" if all_ok else "container:suspended-by-failing-leaf")
         if all_ok:
-            key = ["C40.container", "blob-in-hashed-position"] if hazard else ["C40.container", "v%d" % ver, root.kind]
+            key = ["C40.container", hazard] if hazard else ["C40.container", "v%d" % ver, root.kind]
             for name, thunk in roundtrips(ver, root.obj, root.kind, False):
                 box = []
                 with ctx.driver(key):
